@@ -25,11 +25,11 @@ pub fn def() -> PropDef {
     PropDef {
         id: "C12",
         level: "model_checking",
-        rule: "every sequence of length <= d over {local insert a / ab, local delete a, remote insert valid / superseded / invalid signature, next message of a reconciliation session with a real peer replica (local writes may fall between two messages of the session and obsolete entries the peer sends later), subscribe, unsubscribe i, drop receiver i, set download policy p} through the real SyncHandle, starting with three subscribers (one registered by open, two by subscribe) and up to four; after every acknowledged request every live receiver is drained and compared with the exact expected event list of the reference model (one event per applied entry, in application order, local vs remote with peer and content status as sent, should_download per policy); get_state().subscribers must equal the model; non-trivial = sequences in which an event is delivered to at least one subscriber",
+        rule: "every sequence of length <= d over {local insert a / ab, local delete a, remote insert valid / superseded / invalid signature, next message of a reconciliation session with a real peer replica (local writes may fall between two messages of the session and obsolete entries the peer sends later), subscribe, unsubscribe i, drop receiver i, set download policy p, open one more handle, release one handle (the last release closes the document and ends all subscriptions)} through the real SyncHandle, starting with three subscribers (one registered by open, two by subscribe) and up to four; after every acknowledged request every live receiver is drained and compared with the exact expected event list of the reference model (one event per applied entry, in application order, local vs remote with peer and content status as sent, should_download per policy); get_state().subscribers must equal the model; non-trivial = sequences in which an event is delivered to at least one subscriber",
         assumptions: &["events are compared after the request that causes them has been acknowledged (the actor sends events before it replies), so draining with try_recv is race-free"],
         bound: |t| match t {
-            Tier::Quick => json!({"depth": 4, "alphabet": 19}),
-            Tier::Thorough => json!({"depth": 5, "alphabet": 19}),
+            Tier::Quick => json!({"depth": 4, "alphabet": 21}),
+            Tier::Thorough => json!({"depth": 5, "alphabet": 21}),
         },
         run,
         replay,
@@ -50,6 +50,10 @@ pub enum Ev {
     Unsub(u8),
     DropRx(u8),
     Policy(u8),
+    /// one more handle on the document (no new subscriber)
+    OpenAgain,
+    /// release one handle; releasing the last one closes the document and its subscriptions
+    CloseOne,
 }
 
 fn alphabet() -> Vec<Ev> {
@@ -72,6 +76,8 @@ fn alphabet() -> Vec<Ev> {
     for p in 0..3 {
         v.push(Ev::Policy(p));
     }
+    v.push(Ev::OpenAgain);
+    v.push(Ev::CloseOne);
     v
 }
 
@@ -200,6 +206,7 @@ fn exec(seq: &[Ev]) -> Option<(Bad, String, bool)> {
         });
     }
     let mut pol = 0u8;
+    let mut handles = 1usize;
     // reconciliation session with a real peer
     let mut peer = Sut::memory_with(&[0]);
     for e in peer_entries() {
@@ -242,7 +249,7 @@ fn exec(seq: &[Ev]) -> Option<(Bad, String, bool)> {
                 };
                 set_clock(NOW);
                 let e = spec.signed();
-                let inserted = apply(&mut model, &e, Exp::Local(e.clone()), &mut expected);
+                let inserted = handles > 0 && apply(&mut model, &e, Exp::Local(e.clone()), &mut expected);
                 if res.is_ok() != inserted && last {
                     bad.push(("reply_matches_application", json!({}), format!("{ev:?}: impl ok={} model inserted={inserted}", res.is_ok())));
                 }
@@ -254,7 +261,7 @@ fn exec(seq: &[Ev]) -> Option<(Bad, String, bool)> {
                     _ => invalid_entry(),
                 };
                 let res = block_on_park(h.insert_remote(ns, e.clone(), PEER, ContentStatus::Complete));
-                let inserted = if matches!(ev, Ev::RemoteInvalid) {
+                let inserted = if matches!(ev, Ev::RemoteInvalid) || handles == 0 {
                     false
                 } else {
                     apply(
@@ -288,6 +295,16 @@ fn exec(seq: &[Ev]) -> Option<(Bad, String, bool)> {
                     session_active = false;
                     continue;
                 };
+                if handles == 0 {
+                    // the document is closed: the message must be refused and nothing applied
+                    let res = block_on_park(h.sync_process_message(ns, msg, PEER2, our_state.clone()));
+                    if res.is_ok() && last {
+                        bad.push(("closed_document_refuses_sync", json!({}), "sync_process_message succeeded on a closed document".into()));
+                    }
+                    session_active = false;
+                    to_us = None;
+                    continue;
+                }
                 for (e, status) in iroh_docs::verif::message_values(&msg) {
                     apply(
                         &mut model,
@@ -324,8 +341,27 @@ fn exec(seq: &[Ev]) -> Option<(Bad, String, bool)> {
                     }
                 }
             }
+            Ev::OpenAgain => {
+                block_on_park(h.open(ns, OpenOpts::default().sync())).expect("open");
+                handles += 1;
+            }
+            Ev::CloseOne => {
+                if handles == 0 {
+                    return None;
+                }
+                let closed = block_on_park(h.close(ns)).expect("close");
+                handles -= 1;
+                if closed != (handles == 0) && last {
+                    bad.push(("close_reports_closed", json!({}), format!("close returned {closed} with {handles} handles left")));
+                }
+                if handles == 0 {
+                    for s in subs.iter_mut() {
+                        s.registered = false;
+                    }
+                }
+            }
             Ev::Subscribe => {
-                if subs.len() >= 4 {
+                if subs.len() >= 4 || handles == 0 {
                     return None;
                 }
                 let (tx, rx) = async_channel::unbounded();
@@ -338,7 +374,7 @@ fn exec(seq: &[Ev]) -> Option<(Bad, String, bool)> {
             }
             Ev::Unsub(k) => {
                 let s = subs.get_mut(k as usize)?;
-                if !s.registered {
+                if !s.registered || handles == 0 {
                     return None;
                 }
                 block_on_park(h.unsubscribe(ns, s.tx.clone())).expect("unsubscribe");
@@ -397,7 +433,7 @@ fn exec(seq: &[Ev]) -> Option<(Bad, String, bool)> {
                 ));
             }
         }
-        if last {
+        if last && handles > 0 {
             let st = block_on_park(h.get_state(ns)).expect("get_state");
             let want = subs.iter().filter(|s| s.registered).count();
             if st.subscribers != want {
